@@ -14,11 +14,16 @@ package unary
 // output vector per input vector. Batches are served whether or not Series() was called first: the
 // workers are started (and the series loaded) on the first call of either.
 //@ func (*unaryNegation).loadSeries
-//@   trusted label-set construction (labels.Builder) is not modelled; assumed to start the workers on success
-//@   requires u != nil && ctx != nil
+//@   requires u != nil && ctx != nil && u.next != nil
 //@   panics may
 //@   assigns unary.unaryNegation.series, ghost started
-//@   ensures result == nil ==> forall j in 0..len(u.workers) :: u.workers[j].started
+//@   ensures[C13,C18] workers-started: result == nil ==> forall j in 0..len(u.workers) :: u.workers[j].started
+//@   ensures[C15] series-error-surfaces: callres("model.VectorOperator.Series", 1, 1) != nil ==> result != nil
+//@   ensures[C06,C18] one-label-set-per-input-series: result == nil ==> len(u.series) == u.next.nSeries
+// The metric name is dropped through the label builder - on a copy, never on the child's label set (C17):
+//@   at labels.(*Builder).Del assert[C06,C19] metric-name-dropped: len($ns) == 1 && $ns[0] == "__name__"
+//@   at labels.NewBuilder assert[C06,C17] built-from-the-childs-label-set: sameslice($base, vectorSeries[i])
+//@   loop 0 invariant u != nil && ctx != nil && len(u.series) == len(vectorSeries) && fresh(u.series) && len(vectorSeries) == u.next.nSeries
 //@ func (*unaryNegation).Next
 //@   refines model.VectorOperator.Next
 //@   requires ctx != nil && u != nil && u.next != nil && (forall j in 0..len(u.workers) :: u.workers[j] != nil)
